@@ -859,7 +859,20 @@ func init() {
 				panic("c17 histories: " + oerr.Error())
 			}
 			var hist string
-			switch c.Free(5, "earlier operation") {
+			switch c.Free(6, "earlier operation") {
+			case 5:
+				// the same chain OBJECT written once, then its ocsp / sct bytes refreshed in place (same
+				// backing arrays, same lengths): the second Write must show the new bytes
+				var b bytes.Buffer
+				err, _ := c17Write(chain, &b)
+				for i := range entries {
+					for _, blob := range [][]byte{entries[i].OCSP, entries[i].SCT} {
+						for j := range blob {
+							blob[j] ^= 0xa5
+						}
+					}
+				}
+				hist = fmt.Sprintf("after a successful Write of the same chain object (%d bytes) and an in-place refresh of its ocsp/sct bytes -> err=%v", b.Len(), err)
 			case 4:
 				// the same certificate objects under other OCSP / SCT bytes (an OCSP refresh)
 				var twin certurl.CertChain
@@ -1145,7 +1158,7 @@ func init() {
 	register(&mc.Property{
 		ID:    "C17",
 		Level: "model_checking",
-		Rule:  "choice-tree enumeration. C17/roundtrip: chain length 1..3 x first certificate (5; later positions rotate through the pool so all are distinct) x ocsp and sct independently absent/present at every position (all 4^n patterns, legal and illegal) x length of every present blob from {256 (default),0,1,23,24,255,65535,65536} x reader {bytes.Reader (default), short reads (1 byte for requests <=16 bytes, at most half of larger requests), data together with EOF} (only drawn for legal chains); lengths and reader are deviations: quick explores every vector with <=2 deviations, thorough bound 7 = the full product. C17/histories: legal chains of 1..2 certificates (first certificate 2 quick / 5 thorough, ocsp and optional sct lengths from {1,24} quick / {1,24,256} thorough) written and read back after an earlier operation in the same process: a Write of the same chain to a destination failing at every byte position k in [0,len] (refusing or short write), a Write of another chain failing at every k, a successful Write of another chain, a ReadCertChain of another chain truncated at every length, or a successful Write of a chain over the same certificate objects with other ocsp/sct bytes. C17/certs: every ordered selection with repetition of 0..3 of 5 fixture certificates x all presence patterns, literal or NewCertChain. C17/hostile: 11 kinds of reference-built inputs (all 9^n absent/empty/non-empty presence patterns, missing cert x5, zero certificates x3, unknown keys 5x6, wrong magic x7, shapes/truncations x7, all key orders, duplicate keys x5, trailing bytes x3, head forms x9, value types x7) at every position of chains of 1..3. C17/sct: every list of 0..3 elements with sizes from {0,1,2,65531,65532,65533,65534,65535,65536}. A case is non-trivial when a verdict was demanded of the implementation: a legal chain whose output was compared byte-for-byte with the reference and read back (distinct by chain description and reader), an illegal chain or must-refuse input whose refusal was checked, a must-accept input, every SCT list; hostile inputs that are only recorded are not counted.",
+		Rule:  "choice-tree enumeration. C17/roundtrip: chain length 1..3 x first certificate (5; later positions rotate through the pool so all are distinct) x ocsp and sct independently absent/present at every position (all 4^n patterns, legal and illegal) x length of every present blob from {256 (default),0,1,23,24,255,65535,65536} x reader {bytes.Reader (default), short reads (1 byte for requests <=16 bytes, at most half of larger requests), data together with EOF} (only drawn for legal chains); lengths and reader are deviations: quick explores every vector with <=2 deviations, thorough bound 7 = the full product. C17/histories: legal chains of 1..2 certificates (first certificate 2 quick / 5 thorough, ocsp and optional sct lengths from {1,24} quick / {1,24,256} thorough) written and read back after an earlier operation in the same process: a Write of the same chain to a destination failing at every byte position k in [0,len] (refusing or short write), a Write of another chain failing at every k, a successful Write of another chain, a ReadCertChain of another chain truncated at every length, a successful Write of a chain over the same certificate objects with other ocsp/sct bytes, or a successful Write of the same chain object followed by an in-place change of its ocsp/sct bytes. C17/certs: every ordered selection with repetition of 0..3 of 5 fixture certificates x all presence patterns, literal or NewCertChain. C17/hostile: 11 kinds of reference-built inputs (all 9^n absent/empty/non-empty presence patterns, missing cert x5, zero certificates x3, unknown keys 5x6, wrong magic x7, shapes/truncations x7, all key orders, duplicate keys x5, trailing bytes x3, head forms x9, value types x7) at every position of chains of 1..3. C17/sct: every list of 0..3 elements with sizes from {0,1,2,65531,65532,65533,65534,65535,65536}. A case is non-trivial when a verdict was demanded of the implementation: a legal chain whose output was compared byte-for-byte with the reference and read back (distinct by chain description and reader), an illegal chain or must-refuse input whose refusal was checked, a must-accept input, every SCT list; hostile inputs that are only recorded are not counted.",
 		Assumptions: []string{
 			"refcert/refcbor (independent cert-chain+cbor serializer and strict reader, RFC 6962 vector codec) are correct",
 			"blob content is irrelevant to structure (one seeded pattern per run); blob lengths between the enumerated boundary values behave like their neighbours in the same CBOR head class",
